@@ -92,6 +92,12 @@ check("C05",
       "TLA+ spec (exact Dykstra machine + simplex projection) model-checked with TLC; replay of exact iterates against the recorded iteration history of the implementation",
       "DESIGN.md §4 C05")
 
+check("C10",
+      "TLC (MC_C10 over QOpt/QTomo): one-qubit state tomography with the tight tester set (x, y, z), both flags; datasets are Pythagorean directions x radii (the linear estimate then has a rational Bloch length, so the nearest physical state - simplex projection of the spectrum in the estimate's own eigenframe - is exact) and every few-shot count vector; invariants: the exact linear estimate fits the data and has the radius built in, the closed form is a state, fixes physical estimates and satisfies the variational inequality against the catalogue of physical states. Binding: on every emitted dataset the projected linear estimator (both projection orders) and loss minimisation with the three projected-gradient algorithms x both loss families (constraint options on) must return estimates physical to stopping accuracy; projected linear and (tight testers) squared-error backtracking must equal the exact nearest physical state; projected linear = calc_proj_physical(linear estimate) on all data; for POVM / process / measurement-process / qutrit-state tomography exact data of physical objects are returned and few-shot / degenerate data give physical estimates.",
+      "Trusted: closed form only for one-qubit QST with tight testers and rational Bloch length; tolerances 5e-6 (projection threshold) and 2e-4 (backtracking).",
+      "TLA+ spec (QOpt closed-form nearest state + QTomo exact linear estimate) model-checked with TLC; replay of TLC-emitted datasets and exact estimates into all constrained estimators",
+      "DESIGN.md §4 C10")
+
 ALL = ["C%02d" % i for i in range(1, 21)]
 
 def main():
